@@ -55,6 +55,7 @@ HOOKS = {
              "src/op_assign/mul_assign.rs", "src/op_assign/div_assign.rs"],
     "compare": ["src/gt.rs", "src/gte.rs", "src/lt.rs", "src/lte.rs", "src/eq.rs", "src/neq.rs"],
     "logic": ["src/and.rs", "src/or.rs", "src/xor.rs", "src/not.rs"],
+    "matrix": ["src/matmul.rs"],
     "range": ["src/exclusive.rs", "src/inclusive.rs", "src/exclusive_increment.rs", "src/inclusive_increment.rs", "src/lib.rs"],
     "set": ["src/lib.rs", "src/operations/union.rs", "src/operations/intersection.rs", "src/operations/difference.rs",
             "src/operations/symmetric_difference.rs", "src/relations/subset.rs", "src/relations/proper_subset.rs",
@@ -174,6 +175,10 @@ def _copy_tree(src_root, dst_root, rename=None, hooks=None, crate=None, repo_rel
                 hooked["%s/%s" % (repo_rel, relp)] = hashlib.sha256(data).hexdigest()
             if member and not os.environ.get("VERIF_NO_REPR"):
                 data = _repr_patch(member, relp.replace(os.sep, "/"), data)
+            if relp.replace(os.sep, "/") == "src/lib.rs" and b"#![no_main]" in data:
+                # the machine crates are libraries that carry `#![no_main]`; with it the test harness of the crate does not link
+                # ("undefined symbol: main"), so counterexamples could not be replayed as native tests next to the harness
+                data = data.replace(b"#![no_main]", b"#![cfg_attr(not(any(test, kani)), no_main)]", 1)
             if is_hook:
                 data = data + include_line(crate, relp).encode()
             if write_if_changed(dp, data):
